@@ -83,6 +83,8 @@ func runC13(c *Ctx) {
 	runC13IndexReplace(c)
 	runC13PreviousGroups(c)
 	runC13LookupsFirst(c, "O17", "C13")
+	runC13CommitClearsVirtual(c)
+	borrow(c, "O19", "C14", "O1", "PodSet.AssignTask <-> clearOldStatus", "an undone eviction moves the pod out of Releasing: counters that are decremented under another status predicate than they were incremented keep a phantom pod (or lose a real one) after Rollback / Discard")
 	borrow(c, "O11", "C01", "O7", "BindPod failure -> unallocate", "a commit step that fails must be taken back in the session: the never-bound pod otherwise stays allocated on its node and in its queue for the rest of the cycle")
 	borrow(c, "O12", "C14", "O7", "AcceptedResource is assigned on every path", "AcceptedResource is written by the placement into the caller's PodInfo and is not part of what an undo restores: it must therefore be recomputed by every placement, or an abandoned scenario leaks into the committed one")
 	borrow(c, "O13", "C03", "O9", "is rolled back before anything else is placed", "a what-if attempt that is abandoned must leave no trace before the next one is simulated in the same statement")
